@@ -11,6 +11,7 @@ import (
 	"sync"
 	"time"
 	"unicode"
+	"unicode/utf8"
 
 	"github.com/rivo/uniseg"
 )
@@ -190,6 +191,22 @@ func (p *Parser) readRune() rune {
 	if perr != nil {
 		return eof
 	}
+	// ReadRune would call Read until the character is complete without
+	// looking at anything else: wait for its rest one Read at a time, and
+	// not at all once Close has been called (the bytes are then delivered
+	// as they are)
+	for !p.fullRune() && len(p.close) == 0 {
+		if _, err := p.r.Peek(p.r.Buffered() + 1); err != nil {
+			break
+		}
+	}
+	if !p.fullRune() {
+		b, err := p.r.ReadByte()
+		if err != nil {
+			return eof
+		}
+		return rune(b)
+	}
 	r, size, err := p.r.ReadRune()
 	if r == unicode.ReplacementChar && size == 1 {
 		// If invalid UTF-8, let's read the byte and deliver
@@ -210,6 +227,16 @@ func (p *Parser) readRune() rune {
 	return r
 }
 
+// fullRune reports whether ReadRune can return without calling Read
+func (p *Parser) fullRune() bool {
+	n := p.r.Buffered()
+	if n >= utf8.UTFMax {
+		return true
+	}
+	b, _ := p.r.Peek(n)
+	return utf8.FullRune(b)
+}
+
 func (p *Parser) emit(seq Sequence) {
 	p.sequences <- seq
 }
@@ -227,7 +254,8 @@ func (p *Parser) print(r rune) {
 		grapheme = bldr.String()
 		w        int
 	)
-	for p.r.Buffered() > 0 {
+	// (only what has arrived already: never wait for more input here)
+	for p.r.Buffered() > 0 && p.fullRune() {
 		nextRune, size, _ := p.r.ReadRune()
 		raw := nextRune == unicode.ReplacementChar && size == 1
 		if raw {
